@@ -13,23 +13,85 @@ Theorem C09_granularity_monotone : forall spatial bw cs sdim,
 Proof. exact granularity_monotone. Qed.
 Print Assumptions C09_granularity_monotone.
 
-(* For every schedule with positive bounds (any dimension order, any coefficients, reduction and broadcast
-   dimensions), every positive operand shape, element width, template rank and both modes: the layout the
-   pass produces maps distinct indices of its index box to distinct addresses. *)
-Theorem C09_layout_injective_own : forall tiled spatial bw s shape, wf_inputb s shape = true ->
+(* layout_covers (about the repaired code): for every schedule with positive bounds (any dimension order, any
+   coefficients, reduction and broadcast dimensions, bounds not dividing the shape, partially or not at all
+   accessed dimensions), every positive operand shape, element width, template rank and both modes, the
+   tile bounds of every dimension multiply to the operand dimension. *)
+Theorem C09_layout_covers : forall tiled spatial bw s shape, wf_inputb s shape = true ->
+  shape_of (assign_layout tiled spatial bw s shape) = shape.
+Proof. intros tiled spatial bw s shape H. exact (layout_covers tiled spatial bw s shape (proj1 (wf_inputb_ok s shape) H)). Qed.
+Print Assumptions C09_layout_covers.
+
+(* layout_injective: distinct elements of the operand get distinct addresses (same quantification) *)
+Theorem C09_layout_injective : forall tiled spatial bw s shape, wf_inputb s shape = true ->
   let L := assign_layout tiled spatial bw s shape in
-  forall i j, box (shape_of L) i -> box (shape_of L) j ->
-    affine_map_eval L i = affine_map_eval L j -> i = j.
-Proof. intros tiled spatial bw s shape H. exact (layout_injective_own tiled spatial bw s shape (proj1 (wf_inputb_ok s shape) H)). Qed.
-Print Assumptions C09_layout_injective_own.
+  forall i j, box shape i -> box shape j -> affine_map_eval L i = affine_map_eval L j -> i = j.
+Proof. intros tiled spatial bw s shape H. exact (layout_injective tiled spatial bw s shape (proj1 (wf_inputb_ok s shape) H)). Qed.
+Print Assumptions C09_layout_injective.
 
-(* the running product of tile bounds always divides the operand dimension (the floor never rounds) *)
-Theorem C09_layout_divides : forall tiled spatial bw s shape, wf_inputb s shape = true ->
-  Forall2 (fun p n => (p | n)) (shape_of (assign_layout tiled spatial bw s shape)) shape.
-Proof. intros tiled spatial bw s shape H. exact (layout_divides tiled spatial bw s shape (proj1 (wf_inputb_ok s shape) H)). Qed.
-Print Assumptions C09_layout_divides.
+(* the whole property in one statement: covers the shape, offset 0, non-negative addresses, all_values()
+   without duplicates, one-to-one on the operand's index box *)
+Theorem C09_layout_safe : forall tiled spatial bw s shape, wf_inputb s shape = true ->
+  let L := assign_layout tiled spatial bw s shape in
+  shape_of L = shape /\ offset L = Some 0 /\ NoDup (all_values L) /\
+  (forall i, box shape i -> 0 <= affine_map_eval L i) /\
+  forall i j, box shape i -> box shape j -> affine_map_eval L i = affine_map_eval L j -> i = j.
+Proof.
+  intros tiled spatial bw s shape H L. pose proof (proj1 (wf_inputb_ok s shape) H) as Hwf.
+  split; [exact (layout_covers tiled spatial bw s shape Hwf)|]. split; [reflexivity|].
+  split; [exact (layout_no_self_overlap tiled spatial bw s shape Hwf)|].
+  split; [exact (proj2 (layout_addr_nonneg tiled spatial bw s shape Hwf))|].
+  exact (layout_injective tiled spatial bw s shape Hwf).
+Qed.
+Print Assumptions C09_layout_safe.
 
-(* non-vacuity: operand 0 of the convolution in set-memory-layout.mlir (tiled): 
+(* layout_covers_refuted for the fill-up BEFORE the repair (confirmed on the real pass, then repaired):
+   memref<8x4xi32>, rows (2*d1 + d2, d0), bounds (4,2,2), snax_alu, tiled gave [2, 2] -> (16, 1), [4] -> (32):
+   tile bounds 4 for a dimension of 8, and elements (4,0) and (0,1) of the operand shared address 32 *)
+Theorem C09_layout_covers_refuted_before_fix : exists tiled spatial bw s shape i j,
+  wf_inputb s shape = true /\
+  covers shape (assign_layout_old tiled spatial bw s shape) = false /\
+  box shape i /\ box shape j /\ i <> j /\
+  affine_map_eval (assign_layout_old tiled spatial bw s shape) i = affine_map_eval (assign_layout_old tiled spatial bw s shape) j.
+Proof.
+  exists true, 1, 32, (mkSched [4; 2; 2] [[0; 2; 1]; [1; 0; 0]]), [8; 4], [4; 0], [0; 1].
+  repeat split; try reflexivity; try (repeat constructor; lia); discriminate.
+Qed.
+Print Assumptions C09_layout_covers_refuted_before_fix.
+
+(* the same inputs with the repaired code: covered *)
+Example C09_witness_after_fix :
+  assign_layout true 1 32 (mkSched [4; 2; 2] [[0; 2; 1]; [1; 0; 0]]) [8; 4] =
+    mkLayout [[(Some 128, Some 2); (Some 16, Some 2); (Some 1, Some 2)]; [(Some 32, Some 4)]] (Some 0) /\
+  assign_layout false 1 16 (mkSched [4] [[1]; [1]]) [4; 4] = mkLayout [[(Some 1, Some 4)]; [(Some 4, Some 4)]] (Some 0).
+Proof. split; reflexivity. Qed.
+Print Assumptions C09_witness_after_fix.
+
+(* finding F-C09-2: a non-positive (dynamic = xDSL's DYNAMIC_INDEX, or zero) dimension is outside the domain:
+   the produced "layout" has a non-positive bound *)
+Example C09_nonpositive_shape_refuted :
+  let s := mkSched [4; 4] [[1; 0]; [0; 1]] in
+  wf_inputb s [-9223372036854775808; 4] = false /\
+  assign_layout false 1 32 s [-9223372036854775808; 4] =
+    mkLayout [[(Some 16, Some (-9223372036854775808))]; [(Some 1, Some 4)]] (Some 0).
+Proof. split; reflexivity. Qed.
+Print Assumptions C09_nonpositive_shape_refuted.
+
+(* explicit_layout_untouched: when any operand carries a TSL layout the op is not rewritten at all;
+   otherwise every operand gets the layout of the model *)
+Theorem C09_explicit_layout_untouched : forall tiled spatial bounds ops,
+  (exists o, In o ops /\ o_layout o <> None) -> rewrite_schedule tiled spatial bounds ops = None.
+Proof. exact explicit_layout_untouched. Qed.
+Print Assumptions C09_explicit_layout_untouched.
+
+Theorem C09_rewrite_schedule_all : forall tiled spatial bounds ops,
+  (forall o, In o ops -> o_layout o = None) ->
+  rewrite_schedule tiled spatial bounds ops =
+    Some (map (fun o => assign_layout tiled spatial (o_bw o) (mkSched bounds (o_rows o)) (o_shape o)) ops).
+Proof. exact rewrite_schedule_all. Qed.
+Print Assumptions C09_rewrite_schedule_all.
+
+(* non-vacuity: operand 0 of the convolution in set-memory-layout.mlir (tiled):
    [1] -> (5184), [2, 8] -> (2592, 1), [18] -> (144), [18] -> (8) *)
 Example C09_nonvacuous :
   let s := mkSched [1; 2; 16; 2; 2; 3; 3; 8; 8; 8]
